@@ -424,6 +424,110 @@ def _uset_streams(ctx, cs):
     return masks
 
 
+def _fmt_xyz(u_):
+    out = []
+    for (i, d), w, xyz in zip(u_.index.tolist(), u_["nasset"].values.tolist(), u_[["x", "y", "z"]].values.tolist()):
+        out += [str(int(i)), str(int(d)), str(int(w))]
+        out += ["nan" if v != v else str(int(v)) for v in xyz]
+    return " ".join(out)
+
+
+def _makeuset_xyz_stream(ctx, cs, masks):
+    """make_uset with coordinates: scalar / per-grid / per-DOF rows, 1-D ids, split component lists"""
+    n2p, _ = _mods()
+    rng = ctx.rng
+    for _ in range(ctx.pick(200, 2000)):
+        rows, nas, style = _gen_table(ctx, masks)
+        kind, py = "2", rows
+        r0 = rng.random()
+        if r0 < 0.15:
+            py = [r_[0] for r_ in rows]
+            kind = "1"
+        elif r0 < 0.35 and rows:
+            k = rng.randrange(len(rows))
+            rows = [list(r_) for r_ in rows]
+            if rows[k][1] == 123456:
+                cut = rng.choice([1, 2, 3, 4, 5])
+                a_, b_ = "123456"[:cut], "123456"[cut:]
+                rows[k:k + 1] = [[rows[k][0], int(a_)], [rows[k][0], int(b_)]]
+                nas[k:k + 1] = [nas[k], nas[k] ^ 1]
+            py = rows
+        if rng.random() < 0.2:
+            nas = nas[:1]
+        nrow = len(py)
+        xyz = [[rng.randint(-9, 9) for _ in range(3)] for _ in range(nrow if rng.random() < 0.93 else nrow + 1)]
+        sec = _s(py) if kind == "1" else _s([v for r_ in py for v in r_])
+        r = _call(n2p.make_uset, py, nas, xyz)
+        if r[0] == "ok":
+            impl, br = "ok " + _fmt_xyz(r[1]), "make_uset-xyz:ok"
+            if any(v != v for v in r[1]["x"].values.tolist()):
+                br = "make_uset-xyz:unset-rows"
+        else:
+            impl, br = r[0], "make_uset-xyz:" + r[0]
+        cs.add("make_uset-xyz", "makeusetx %s | %s | %s | %s" % (kind, sec, _s(nas), _s([v for t in xyz for v in t])),
+               impl, {"dof": py, "nasset": nas, "xyz": xyz}, nontrivial=True, branch=br)
+
+
+def _nas_reply(r, boolean):
+    if r[0] != "ok":
+        return r[0]
+    v = np.asarray(r[1])
+    return ("ok " + _s(v.astype(int))).strip()
+
+
+def _nas_streams(ctx, cs):
+    """upasetpv / upqsetpv on generated nas2cam-like dictionaries (consistent ones, damaged ones) and on the
+    dictionaries of pyYeti's own test data"""
+    from props import c18_nas as N
+
+    n2p, _ = _mods()
+    rng = ctx.rng
+
+    def both(nas, tag, ses_a, ses_q, known=None):
+        secs = N.serialize(nas)
+        plain = N.to_plain(nas)
+        for c in ses_a:
+            r = _call(n2p.upasetpv, nas, c)
+            br = "upasetpv:" + (r[0] if r[0] != "ok" else "ok")
+            if r[0] == "ok" and known is not None:
+                m = nas["maps"].get(c, [])
+                br = "upasetpv:" + ("maps" if len(m) else "upids" if known["kind"].get(c) == "seconct" else "direct")
+            cs.add("upasetpv" + tag, "upa %d | %s" % (c, secs), _nas_reply(r, False), {"nas": plain, "seup": c},
+                   nontrivial=r[0] == "ok" and len(r[1]) > 0, branch=br)
+        for s_ in ses_q:
+            r = _call(n2p.upqsetpv, nas, s_)
+            br = "upqsetpv:" + (r[0] if r[0] != "ok" else ("some" if np.any(r[1]) else "none"))
+            cs.add("upqsetpv" + tag, "upq %d | %s" % (s_, secs), _nas_reply(r, True), {"nas": plain, "sedn": s_},
+                   nontrivial=r[0] == "ok" and bool(np.any(r[1])), branch=br)
+
+    for _ in range(ctx.pick(150, 1500)):
+        nas, info = N.gen_nas(rng)
+        ses = info["order"]
+        kind = {}
+        for c in ses:
+            dn = set(np.asarray(nas["dnids"][c]).tolist())
+            kind[c] = "seconct" if any(v > N.INTERNAL for v in dn) else "csuper"
+        both(nas, "", ses + [rng.choice([0, 999])], [0] + ses + ([999] if rng.random() < 0.2 else []), {"kind": kind})
+        depth2 = any(info["parent"][c] != 0 for c in ses)
+        if depth2:
+            ctx.count("upqsetpv:recursive")
+        if info["style"] == "noq":
+            ctx.count("upqsetpv:spoint-rule")
+        if any(info["skipped"].values()):
+            ctx.count("upasetpv:maps-skip")
+        if rng.random() < 0.6:
+            bad, what = N.damage(rng, nas)
+            try:
+                both(bad, "-damaged", [c for c in ses if rng.random() < 0.7] or ses[:1], [0] + [c for c in ses if rng.random() < 0.3])
+                ctx.count("nas-damage:" + what)
+            except RecursionError:
+                ctx.skip("damaged dictionary with a cyclic selist")
+    for name, nas in N.real_dictionaries(ctx.repo):
+        sl = np.asarray(nas["selist"]).tolist()
+        both(nas, "-real", sorted({r_[0] for r_ in sl}), sorted({r_[1] for r_ in sl} | {r_[0] for r_ in sl}))
+        ctx.count("nas-real-dictionary")
+
+
 def _canon_slice(r):
     if r[0] != "ok":
         return r[0]
@@ -676,7 +780,10 @@ def _float_streams(ctx, cs):
 
 def correspondence(ctx):
     cs = Cases(ctx)
-    _uset_streams(ctx, cs)
+    masks = _uset_streams(ctx, cs)
+    if masks and all(k in masks for k in NAMED + USER):
+        _makeuset_xyz_stream(ctx, cs, masks)
+        _nas_streams(ctx, cs)
     _locate_streams(ctx, cs)
     _float_streams(ctx, cs)
     rep = ctx.driver("C18").ask([it[1] for it in cs.items])
